@@ -289,6 +289,7 @@ def run(ctx):
                 stats["rejected_degenerate_draws"] += c["rejected"]
                 for q in c["queries"]:
                     stats["queries"][q["kind"]] = stats["queries"].get(q["kind"], 0) + 1
+    stats["t_generate_and_fit_s"] = round(ctx.elapsed(), 1)
     # contract validation (numerical) on every fit
     contract_bad = []
     for i, (c, r) in enumerate(zip(fits, recs)):
@@ -323,7 +324,10 @@ def run(ctx):
         shards.append(C.SHARD_HEAD + "From Coq Require Import QArith.\nFrom Verif Require Import ListX DCH.\n"
                       "Definition verdicts : list bool :=\n %s.\n"
                       "Eval vm_compute in (failing verdicts).\n" % body)
+    t_c0 = ctx.elapsed()
     outs = C.run_shards(ctx.prop, shards, timeout=1500)
+    stats["t_coq_s"] = round(ctx.elapsed() - t_c0, 1)
+    stats["n_shards"] = len(shards)
     failed, corr_broken = {}, []
     for g, (rc, out) in zip(shard_groups, outs):
         lists = C.parse_nat_lists(out)
